@@ -662,6 +662,9 @@ func runC14(c *Ctx) *Replay {
 	if withImport && r.Chance(1, 2) {
 		sc.Extra["impform"] = fmt.Sprint(1 + r.Intn(len(importUses)))
 	}
+	if r.Chance(1, 5) {
+		sc.Extra["awkward"] = fmt.Sprint(1 + r.Intn(len(awkwardNames)))
+	}
 	nt := r.Range(2, 4)
 	var tasks []TaskSpec
 	for i := 0; i < nt; i++ {
@@ -858,6 +861,13 @@ func execConcurrent(n *Node, sc *Scenario) *Violation {
 		cp.Bop = prog.Bop + "\n" + importUses[k-1]
 		prog = &cp
 	}
+	if k := atoiDefault(sc.Extra["awkward"], 0); k > 0 && int(k) <= len(awkwardNames) {
+		// legal schema names that mean something in the Go the generator writes (its own
+		// method names, Go keywords and predeclared names, the identifiers of its templates)
+		cp := *prog
+		cp.Bop = prog.Bop + "\n" + awkwardNames[k-1]
+		prog = &cp
+	}
 	// prelude: the complementary call (every option flipped) of each task, so that the
 	// scenario itself contains a history of calls with different settings; state that a
 	// first call freezes then conflicts with the tasks in ANY process, also a replay's
@@ -1020,6 +1030,11 @@ func execConcurrent(n *Node, sc *Scenario) *Violation {
 	seed := uint64(atoiDefault(sc.Extra["seed"], 1))
 	b.rng = prng.New(seed)
 	b.switchP = int(atoiDefault(sc.Extra["switch_p"], 8))
+	if lim := est / 30000; b.switchP < lim {
+		// very long calls: about 30000 hand-overs per scenario at most (each is a real park
+		// and wake-up of a goroutine); a function of the scenario alone, so replays agree
+		b.switchP = lim
+	}
 	for i, ts := range sc.Tasks {
 		b.tasks = append(b.tasks, &batonTask{id: i, resume: make(chan struct{}), ts: simrt.NewTaskState(i, ts.MapOrder.Strategy, ts.MapOrder.Seed)})
 	}
@@ -1203,6 +1218,17 @@ var semanticErrors = []string{
 	"message SeM3 { 1 -> int32 same; 2 -> int32 same; 3 -> int32 other; 4 -> int32 other; }\n",
 	// an import graph with two cycles through the imported file (files written by prepareFile)
 	"import \"cyca.bop\"\n",
+}
+
+// awkwardNames are definitions whose member and type names are spelled like things the
+// generated Go source contains anyway; the generated source may or may not compile (no
+// property says), but Generate must treat its input and its callers as for any other name.
+var awkwardNames = []string{
+	"struct AwkS { uint32 size; string marshalBebop; int32 encodeBebop; int32 decodeBebop; bool unmarshalBebop; byte marshalBebopTo; }\nmessage AwkM { 1 -> int32 size; 2 -> string encodeBebop; 3 -> bool mustUnmarshalBebop; }\nunion AwkU { 1 -> struct AwkUS { int32 size; guid mustUnmarshalBebop; } 2 -> message AwkUM { 1 -> int32 decodeBebop; } }\nreadonly struct AwkR { int32 size; int32 getSize; }\n",
+	"struct AwkK { int32 type; int32 func; bool range; int32 go; int32 select; int32 chan; int32 defer; int32 package; int32 var; int32 interface; }\nmessage AwkKM { 1 -> int32 type; 2 -> int32 func; }\n",
+	"struct AwkB { int32 len; int32 append; int32 make; int32 error; int32 nil; int32 iota; int32 bbp; int32 buf; int32 at; int32 iohelp; int32 err; int32 r; int32 w; int32 ln; int32 i; }\nunion AwkBU { 1 -> struct AwkBS { int32 buf; int32 at; } }\n",
+	"struct AwkC { int32 value; int32 Value; int32 VALUE; }\nstruct awkLower { int32 a; }\nstruct AwkLower { int32 b; }\nmessage AwkCM { 1 -> int32 x; 2 -> int32 X; }\n",
+	"enum AwkE { size = 1; Size = 2; String = 3; }\nstruct AwkES { AwkE size; AwkE string_; }\nstruct Record { int32 a; }\nstruct Reader { Record record; }\nstruct NewAwkS { int32 a; }\nstruct MakeAwkS { NewAwkS newAwkS; }\n",
 }
 
 func compareResult(phase string, ts TaskSpec, ref, got *taskResult) *Violation {
